@@ -87,6 +87,20 @@ def gen_cases(rng, tier):
         cfg = '(defsrc a s d)\n(deflayer l0 %s y (one-shot 50 ralt))' % act
         h = rng.choice([['d30', 't3', 'u30'], ['d32', 't1', 'd30', 't20', 'u30', 't5', 'u32'], ['d30', 't1', 'u30', 't30', 'd31', 't5', 'u31']])
         cases.append({'id': 'c01-rptself-%d' % i, 'cfg': cfg, 'hist': h + ['t%d' % DRAIN, 'q', 't50'], 'sub': 'ksim', 'tags': {'mode': 'rpt-any-self-trigger'}})
+    # a cancellable macro that contains items with a press and a release of their own (mouse buttons, unmod, wheel), cancelled at every
+    # millisecond of its first steps, by the release of its key or by the press of another key: whatever it pressed is let go
+    MVAR = ['macro-release-cancel', 'macro-cancel-on-press', 'macro-release-cancel-and-cancel-on-press', 'macro-repeat-release-cancel']
+    MBODY = ['mlft 100 z', 'x mrgt 50 y', '(unmod a) 20 mmid 20 b', 'S-x (mwheel-up 20 120) 30 c']
+    mi = 0
+    for var in MVAR:
+        for body in (MBODY if tier != 'quick' else MBODY[:3]):
+            for off in range(0, 9):
+                for how in ('release', 'other-press'):
+                    cfg = '(defsrc a s)\n(deflayer l0 (%s %s) n)' % (var, body)
+                    h = ['t3', 'd30', 't%d' % off] + (['u30', 't8', 'd31', 't3', 'u31'] if how == 'release' else ['d31', 't4', 'u31', 't3', 'u30'])
+                    cases.append({'id': 'c01-mcancel-%d' % mi, 'cfg': cfg, 'hist': h + ['t%d' % DRAIN, 'q', 't50'], 'sub': 'ksim',
+                                  'tags': {'mode': 'macro-cancel', 'cancel_by': how, 'offset': off}})
+                    mi += 1
     # one key carrying two custom actions (multi merges them into one list; their releases are handled by one fold): every ordered
     # pair out of the press/release custom actions, pressed and released alone
     CUST = ['mlft', 'mrgt', 'mmid', '(movemouse-speed 50)', '(mwheel-up 20 120)', '(mwheel-left 20 120)', '(movemouse-up 5 1)',
@@ -104,9 +118,9 @@ def gen_cases(rng, tier):
     # virtual keys carrying each kind of action, operated by press / release / tap / toggle (balanced): a toggled-off key is off
     VACT = ['x', 'lsft', '(macro-repeat x 20)', '(macro-repeat-release-cancel y 20)', '(macro z 5 b)', '(layer-while-held l0)', 'mlft',
             '(multi lctl (macro-repeat x 30))', '(one-shot 100 lalt)', '(tap-hold 0 50 x y)', '(mwheel-up 20 120)', 'S-x']
-    for i in range(40 if tier == 'quick' else 800):
-        va = rng.choice(VACT)
-        op = rng.choice(['toggle', 'toggle', 'press-release', 'tap'])
+    # (every kind x every way of operating it, not a random draw: a seeded change on one kind was caught or not depending on the seed)
+    combos = [(va, op) for va in VACT for op in ('toggle', 'press-release', 'tap')] * (1 if tier == 'quick' else 22)
+    for i, (va, op) in enumerate(combos):
         acts = {'toggle': ['(on-press toggle-vkey v0)', '(on-press toggle-vkey v0)'],
                 'press-release': ['(on-press press-vkey v0)', '(on-press release-vkey v0)'],
                 'tap': ['(on-press tap-vkey v0)', '(on-release tap-vkey v0)']}[op]
